@@ -46,11 +46,13 @@ type Op struct {
 
 // Server is the wire server.
 type Server struct {
-	mu    sync.Mutex
-	lns   map[string]net.Listener
-	colls map[string][]bson.D
-	ttl   map[string]ttlSpec
-	seq   int
+	mu     sync.Mutex
+	lns    map[string]net.Listener
+	conns  []net.Conn
+	closed bool
+	colls  map[string][]bson.D
+	ttl    map[string]ttlSpec
+	seq    int
 
 	// PreApply is called (outside the state lock) before a command is applied;
 	// it may block (gate).  It returns the fault to inject: "", "fail", "lost".
@@ -89,19 +91,38 @@ func (s *Server) Listen(name string) string {
 			if err != nil {
 				return
 			}
+			s.cmu.Lock()
+			if s.closed {
+				s.cmu.Unlock()
+				c.Close()
+				return
+			}
+			s.conns = append(s.conns, c)
+			s.cmu.Unlock()
 			go s.serve(name, c)
 		}
 	}()
 	return "mongodb://" + ln.Addr().String()
 }
 
-// Close closes all listeners.
+// Close closes all listeners and every accepted connection (clients that are never disconnected
+// would otherwise keep their sockets for the life of the process).
 func (s *Server) Close() {
 	s.cmu.Lock()
 	defer s.cmu.Unlock()
+	s.closed = true
 	for _, ln := range s.lns {
 		ln.Close()
 	}
+	for _, c := range s.conns {
+		// reset instead of an orderly shutdown: thousands of short-lived worlds would otherwise
+		// exhaust the ephemeral ports with sockets in TIME_WAIT
+		if tc, ok := c.(*net.TCPConn); ok {
+			tc.SetLinger(0)
+		}
+		c.Close()
+	}
+	s.conns = nil
 }
 
 // Counts returns the number of requests currently held in PreApply and being applied.
